@@ -6,6 +6,7 @@ import (
 	"reflect"
 	"strconv"
 	"strings"
+	"time"
 
 	"github.com/vimeo/dials"
 )
@@ -39,6 +40,7 @@ func checkRuntime(c *Ctx, prop string) {
 	res := c.Res
 	res.Rule = rtRule
 	n := c.scale(160, 6000)
+	t0 := time.Now()
 	for i := 0; i < n; i++ {
 		cfg := rtConfig{
 			nsrc: 1 + rng.Intn(3), nclients: 2 + rng.Intn(4), steps: 60 + rng.Intn(140),
@@ -89,7 +91,27 @@ func checkRuntime(c *Ctx, prop string) {
 		if res.Bad() > 0 && !c.Search {
 			break
 		}
+		if c.Search && (hasViolation(res) || time.Since(t0) > searchBudget(c)) {
+			break
+		}
 	}
+}
+
+func hasViolation(res *Result) bool {
+	for _, f := range res.Findings {
+		if f.Kind == "violation" {
+			return true
+		}
+	}
+	return false
+}
+
+// searchBudget bounds the witness search (it only runs when a proof or tie is already broken).
+func searchBudget(c *Ctx) time.Duration {
+	if c.Tier == "thorough" {
+		return 15 * time.Minute
+	}
+	return 3 * time.Minute
 }
 
 func head(s []string, n int) []string {
